@@ -94,7 +94,7 @@ structure LS (R : Type) where
 
 /-- One iteration of `Loop` (the scan is not cancelled): the merger published for the request. -/
 def serve {R : Type} (scan : SReq → R) (cacheable : R → Bool) (st : LS R) (r : SReq) : LS R × R :=
-  -- a changed sort flag or revision drops the merger cache (and leaves `prevCount` alone)
+  -- a changed sort flag or revision drops the merger cache; what it will hold is for `r.count` items
   let cleared := r.sort != st.sort || r.rev != st.rev
   let hit : Option R :=
     if cleared then none
@@ -102,7 +102,7 @@ def serve {R : Type} (scan : SReq → R) (cacheable : R → Bool) (st : LS R) (r
       (st.cache.find? fun e => e.1 == r.pat && e.2.2 == r.final).map (·.2.1)
     else none
   let cache1 := if cleared then [] else if r.count = st.prevCount then st.cache else []
-  let prev1 := if cleared then st.prevCount else r.count
+  let prev1 := r.count
   let res := hit.getD (scan r)
   let cache2 := if cacheable res then (r.pat, res, r.final) :: cache1.filter (·.1 != r.pat) else cache1
   ({ sort := r.sort, rev := r.rev, prevCount := prev1, cache := cache2 }, res)
